@@ -627,6 +627,49 @@ func fieldAssignments(fd *ast.FuncDecl, recv string) []string {
 	return out
 }
 
+// ifConds lists the conditions of the if statements of fd, in source order (an else-if counts as its own statement).
+func ifConds(fd *ast.FuncDecl) []string {
+	var out []string
+	if fd == nil {
+		return nil
+	}
+	ast.Inspect(fd.Body, func(n ast.Node) bool {
+		if is, ok := n.(*ast.IfStmt); ok {
+			c := types.ExprString(is.Cond)
+			if is.Init != nil {
+				if as, ok := is.Init.(*ast.AssignStmt); ok && len(as.Rhs) == 1 {
+					c = types.ExprString(as.Rhs[0]) + "; " + c
+				}
+			}
+			out = append(out, c)
+		}
+		return true
+	})
+	return out
+}
+
+// packageVars lists the names of the package-level variables of p (non-test files), sorted.
+func packageVars(p *pkg) []string {
+	var out []string
+	for _, f := range p.files {
+		for _, d := range f.Decls {
+			gd, ok := d.(*ast.GenDecl)
+			if !ok || gd.Tok != token.VAR {
+				continue
+			}
+			for _, sp := range gd.Specs {
+				if vs, ok := sp.(*ast.ValueSpec); ok {
+					for _, n := range vs.Names {
+						out = append(out, n.Name)
+					}
+				}
+			}
+		}
+	}
+	sort.Strings(out)
+	return out
+}
+
 // goStmts lists "<func>: go <callee>" for every go statement of the package ("go func" for a function literal).
 func goStmts(p *pkg) []string {
 	fns := p.allFuncs()
@@ -1058,6 +1101,12 @@ func main() {
 		e.strs("userIDHeaderMethods", hm, a.funcDecl("forwardRequest") != nil, []string{"Add"}, "agent forwardRequest: Header methods applied to utils.HeaderUserID, in order")
 		hm = a.headerMethods("forwardRequest", "headerAuthorization")
 		e.strs("authorizationHeaderMethods", hm, a.funcDecl("forwardRequest") != nil, []string{"Del"}, "agent forwardRequest: Header methods applied to headerAuthorization, in order")
+		e.strs("forwardRequestConds", ifConds(a.funcDecl("forwardRequest")), a.funcDecl("forwardRequest") != nil,
+			[]string{"*debug", "*forwardUserID", "*stripCredentials", "err != nil", "*debug", "responseForwarder.Close(); err != nil"},
+			"agent forwardRequest: the conditions of its if statements, in order (the identity header is set whenever --forward-user-id is on and the credentials are removed whenever --strip-credentials is on: no further condition on the request)")
+		e.strs("parseRequestIDsConds", ifConds(u.funcDecl("parseRequestIDs")), u.funcDecl("parseRequestIDs") != nil,
+			[]string{"err != nil", "response.StatusCode != http.StatusOK", "len(responseBytes) <= 0", "json.Unmarshal(responseBytes, &requests); err != nil"},
+			"agent/utils parseRequestIDs: the conditions of its if statements, in order (a pending-list answer is a success only with status 200 and a body that is empty or a JSON list; everything else is a failed poll, which the loop answers with the back-off)")
 		caps := u.chanCaps(u.funcDecl("NewResponseForwarder"))
 		e.zs("responseForwarderChanCaps", caps, u.funcDecl("NewResponseForwarder") != nil, []int64{0, 1, 1}, "agent/utils NewResponseForwarder: make(chan) capacities in source order")
 		// hostProxy.FlushInterval = <duration> ; resp.TransferEncoding = []string{"chunked"} in NewResponseForwarder
@@ -1235,6 +1284,7 @@ func main() {
 		caps := w.chanCaps(w.funcDecl("NewConnection"))
 		e.zs("connectionChanCaps", caps, w.funcDecl("NewConnection") != nil, []int64{10, 10}, "agent/websockets NewConnection: make(chan) capacities in source order (server, client)")
 		e.strs("websocketsLimitCalls", limitCalls(w, nil), true, nil, "agent/websockets: calls that set a deadline or a size limit on a shimmed connection or on a shim request (none)")
+		e.strs("shimPackageVars", packageVars(w), true, []string{"shimTmpl", "stripHeaderNames", "websocketShimInjectedHeadersPath"}, "agent/websockets: package-level variables (a template, a table and a path, all read-only after start-up: shim sessions share the connection table of their shim and nothing else)")
 		emit("Websockets", e)
 	}
 
@@ -1266,6 +1316,7 @@ func main() {
 			})
 		}
 		e.zs("emptySessionIDNotCached", []int64{guard}, fd != nil, []int64{0}, "agent/sessions cachedCookieJar: 1 if it returns early (no cache entry) for the empty session ID")
+		e.strs("sessionsPackageVars", packageVars(ss), true, nil, "agent/sessions: package-level variables (none: everything sessions share is the Cache, under its mutex)")
 		emit("Sessions", e)
 	}
 
@@ -1292,6 +1343,7 @@ func main() {
 				e.strs("bridgeDialCallees", calleesIn(dw), dw != nil, []string{"websocket.DefaultDialer.DialContext", "backendURL.String", "fmt.Errorf"},
 					"tcpbridge connection.DialWebsocket: what it calls (the frontend's set-up of a bridged connection is bounded by gorilla's DefaultDialer, whose HandshakeTimeout is 45 s: a websocket peer that never answers cannot hold the client's connection for ever)")
 			}
+			e.strs("bridgePackageVars", packageVars(t), true, nil, "utils/tcpbridge/connection: package-level variables (none: two bridged connections share no lock, buffer or pool - what happens to one cannot hold up or alter another)")
 			e.strs("bridgeBackendDefers", deferredCalls(hb), hd != nil, []string{"cancel()", "wsConn.Close()", "backendConn.Close()"}, "tcpbridge connection.Handler: deferred calls outside the goroutines, in source order (the websocket is closed on every return after the upgrade, also when the dial fails)")
 			if fp, err := loadPkg(*repo, "utils/tcpbridge/tcp-bridge-frontend"); err == nil {
 				mn := fp.funcDecl("main")
